@@ -361,9 +361,9 @@ example : SameKeys { cap := fun _ => 256, inval := fun _ _ => false, tblLsb0 := 
     Gen.lsb0Table ≠ Gen.msb0Table ∧ Gen.lsb0Table.length = Gen.msb0Table.length ∧ 0 < Gen.lsb0Table.length :=
   ⟨gen_same_keys _ rfl rfl, by decide, by decide, by decide⟩
 
-/-- The configuration of the working tree exists (all eight capacities were extracted), with capacity 256 for
-    `str_to_bitstore`, so `head_all_pure` / `head_option_restore` are not vacuous. -/
-example : ∃ cfg, genCfg = some cfg ∧ cfg.cap .strToBitstore = 256 ∧ cfg.inval .strToBitstore .lsb0 = true := by
+/-- The configuration of the working tree exists (all eight capacities were extracted) and its string cache is cleared by both
+    setters, so `head_all_pure` / `head_option_restore` are not vacuous. -/
+example : ∃ cfg, genCfg = some cfg ∧ cfg.inval .strToBitstore .lsb0 = true ∧ cfg.inval .strToBitstore .mxfp = true := by
   refine ⟨_, rfl, by decide, by decide⟩
 
 /-- The Dtype hypothesis of `lru_correct_upto` is used with a relation that is not equality. -/
